@@ -8,10 +8,10 @@ Open Scope Z_scope.
 Definition idp := (Z * bool)%type.
 Definition res_outs (s : list Z) (ps : list idp) (e : entry) : list Z * list idp * Z :=
   match s with o :: s' => (s', ps, o) | [] => ([], ps, 0) end.
-Definition loop_ids (tree keep : bool) (nact : Z) (ids : list Z) (pend : list entry) (outs : list Z)
+Definition loop_ids (tree hyb keep : bool) (nact : Z) (ids : list Z) (pend : list entry) (outs : list Z)
   : list event * list idp * Z :=
   let '(_, psf, naf, log) :=
-    resolve_loop (fun p : idp => fst p) (fun p : idp => (fst p, true)) res_outs tree keep (fun e => e) nact
+    resolve_loop (fun p : idp => fst p) (fun p : idp => (fst p, true)) res_outs tree hyb keep (fun e => e) nact
                  outs (map (fun i => (i, false)) ids) pend in
   (log, psf, naf).
 
@@ -28,12 +28,12 @@ Definition idp_eqb (a b : idp) : bool := (fst a =? fst b) && Bool.eqb (snd a) (s
 Definition entry_eqb (a b : entry) : bool :=
   let '(a1, a2, a3) := a in let '(b1, b2, b3) := b in (a1 =? b1) && (a2 =? b2) && (a3 =? b3).
 
-(* one loop case: inputs (tree, keep_sorted, N_active, ids, pending array, outcomes) and what the library logged /
+(* one loop case: inputs (tree, hybrid integrator, keep_sorted, N_active, ids, pending array, outcomes) and what the library logged /
    left behind (final particle order with flags, final N_active) *)
-Definition loop_case := (bool * bool * Z * list Z * list entry * list Z * list event * list idp * Z)%type.
+Definition loop_case := (bool * bool * bool * Z * list Z * list entry * list Z * list event * list idp * Z)%type.
 Definition loop_ok (c : loop_case) : bool :=
-  let '(tree, keep, nact, ids, pend, outs, elog, efin, enact) := c in
-  let '(log, fin, naf) := loop_ids tree keep nact ids pend outs in
+  let '(tree, hyb, keep, nact, ids, pend, outs, elog, efin, enact) := c in
+  let '(log, fin, naf) := loop_ids tree hyb keep nact ids pend outs in
   list_eqb ev_eqb log elog && list_eqb idp_eqb fin efin && (naf =? enact).
 
 Fixpoint bad_from {A} (ok : A -> bool) (n : nat) (l : list A) : list nat :=
@@ -77,7 +77,7 @@ Definition merge_search (keep : bool) (nact : Z) (bx by_ bz : float) (ngx ngy ng
            (mr0 : float * float) (cbs : list float) (ps : list fp) : list event * list Z * list float :=
   let pend := pending_direct bx by_ bz ngx ngy ngz seed ps in
   let '((_, (m0, m1)), psf, naf, log) :=
-    resolve_loop (fun p : fp => phash p) flagF (res_merge t) false keep (fun e => e) nact (cbs, mr0) ps pend in
+    resolve_loop (fun p : fp => phash p) flagF (res_merge t) false false keep (fun e => e) nact (cbs, mr0) ps pend in
   (log, map (fun p : fp => phash p) psf ++ [naf], flat_map fl_p psf ++ [m0; m1]).
 
 Definition merge_case := ((list event * list Z * list float) * (list event * list Z * list float))%type.
@@ -103,7 +103,7 @@ Definition res_hs (bx by_ bz t eps mcv : float) (s : list orc) (ps : list fp) (e
 Definition hs_search (bx by_ bz : float) (ngx ngy ngz : Z) (seed : Z) (t eps mcv : float)
            (orcs : list orc) (ps : list fp) : list event * list Z * list float :=
   let pend := pending_direct bx by_ bz ngx ngy ngz seed ps in
-  let '(_, psf, _, log) := resolve_loop (fun p : fp => phash p) flagF (res_hs bx by_ bz t eps mcv) false false (fun e => e) (-1) orcs ps pend in
+  let '(_, psf, _, log) := resolve_loop (fun p : fp => phash p) flagF (res_hs bx by_ bz t eps mcv) false false false (fun e => e) (-1) orcs ps pend in
   (log, map (fun p : fp => phash p) psf, flat_map fl_p psf).
 
 (* ---- (e) max_radius bookkeeping after adding particles with the given radii to a fresh simulation *)
